@@ -33,7 +33,7 @@ def json_case(v, indent):
     except Exception:  # pylint: disable=broad-except
         text = None
     c = {'v': A.aval(v), 'indent': indent or 0, 'isText': isinstance(text, str), 'text': A.cps(text) if isinstance(text, str) else [],
-         'back': {'t': 'null'}, 'std': {'t': 'null'}, 'fresh': True, 'shown': text if isinstance(text, str) else None}
+         'back': {'t': 'null'}, 'std': {'t': 'null'}, 'fresh': True, 'shown': text if isinstance(text, str) else ''}
     if isinstance(text, str):
         try:
             c['back'] = A.aval(SF['jsonParse']([text], None))
